@@ -64,6 +64,19 @@ CHECKS['C14'] = dict(
     text='All corpora run on both value representations and must agree on outcome/stdout/error line; IEEE-sensitive generated programs are additionally compared with the reference model on both builds; a Rust tool pushes >= 2*10^5 doubles reachable by arithmetic (incl. -0, infinities, NaNs, subnormals), bools, nil, undefined and objects through Value in each build, checks round trip / classification / equality / hashing and compares a digest across builds.',
     note=_SELF_NOTE + ' Map iteration order legitimately differs between representations and is never observed by generated programs.', ref='DESIGN.md §2 C14')
 
+CHECKS['C09'] = dict(
+    technique='intern-table invariant hook inside every collection + reference-model differential over string-route pairs under collection schedules with address reuse',
+    text='Generated programs build equal or different string content by different routes (literal, concatenation, interpolation, slice, split, char-wise rebuild, str() of numbers, case mapping, trim), compare them, use them as map keys and in has/index, with create-drop-recreate cycles; every program runs under four collection schedules with the address-reuse / poisoning allocator. A hook checks inside every collection that no two marked strings have equal content, each is the intern entry for its content, keys point into their values and entries are held strings; stdout is compared with the reference model.',
+    note=_MODEL_NOTE + ' Property/method lookup by computed names has no language construct and is not exercised.', ref='DESIGN.md §2 C09')
+CHECKS['C10'] = dict(
+    technique='reference-model differential over generated alias/mutation histories with identity probes; clean and dirty strata keyed on generator-tracked list capacity',
+    text='Straight-line mutation histories applied through aliases held in variables, nested lists, map values, map keys, fields and closures, interleaved with identity probes (==, map has/get with object keys, list/tuple has/index), compared with a model in which objects have immutable identity; also under a collection schedule. Cases in which a list outgrows its capacity while an alias is stored off a plain variable are labelled (known finding D6); everything else must agree exactly.',
+    note=_MODEL_NOTE, ref='DESIGN.md §2 C10')
+CHECKS['C11'] = dict(
+    technique='reference-model differential: probe table over every collection/string/iterator/number native with boundary and invalid arguments + seeded random iterator pipelines and stateful collection operation sequences',
+    text='About 4000 table probes (every native x normal/boundary/invalid arguments, wrong arity and kinds, multi-byte strings, callbacks that print or raise) plus seeded random iterator pipelines (shared sources, interleaved advancing, mutation in between) and stateful operation sequences on collections are run on debug and release and compared line by line and by error class with python models of sequence/map/stream semantics that follow the left-to-right lazy evaluation order.',
+    note=_MODEL_NOTE + ' regexp/io/env/math modules are covered for crash freedom only (C16).', ref='DESIGN.md §2 C11')
+
 PENDING = {}
 
 
